@@ -1,27 +1,203 @@
 (* C11 — A filtered view transfers as a self-contained tree.
-   Part proved here: whatever sub-sequence of a canonical walk the filters leave, the
-   stream the sender emits after its hard-link reset passes the receiver's hard-link
-   validator (every link names an entry that is itself in the stream, earlier).
-   Statements still to be proved are listed in props/C11.json (unproved_statements). *)
+
+   Models: Model/Hardlinks.v (hardlinkFilter.Walk / WithHardlinkReset, Hardlinks validator),
+   Model/FilterWalk.v + Model/Pattern.v (filterFS.Walk, C10), Model/Validator.v (order
+   validator, C12), Model/AbsDest.v + Model/Diff.v (receiver, C02/C05), and Model/SenderView.v:
+     sender_view pmatch mapfn c view  = hardlink_reset (filter_walk pmatch mapfn c view)
+                                        the STAT sequence Send(NewFilterFS(src, opt)) announces
+     filter_open pmatch c p           filterFS.Open admits p (MatchesOrParentMatches, both matchers)
+     sent_content                     bytes sendFile delivers: the source's when Open succeeds,
+                                      none when it fails (the error is dropped in send.go)
+   Proofs: Proofs/HardlinksP.v, RefValidP.v, TrimP.v, SenderViewP.v, SenderTransferP.v,
+   C11WitnessP.v.
+
+   Everything is quantified over the external single-pattern matcher [pmatch], the map function,
+   the pattern lists and the view.  About [pmatch] NOTHING is assumed except in walk_open_agree
+   (C10's [prefix_semantics] and [cfg_star_safe], for the direction "Open admits => reported").
+   [wf_source view]: what a directory listing guarantees (names non-empty, without '/', not "."
+   or "..", siblings strictly ascending bytewise, only directories have children).
+   [source_links_ok view]: the hard links of the source are those of a canonical walk. *)
 From Coq Require Import List NArith Bool.
-From FS Require Import Sx Model.Path Model.Stat Model.Hardlinks Proofs.HardlinksP.
+From FS Require Import Sx Model.Path Model.Stat Model.Tree Model.Pattern Model.FilterWalk
+  Model.Hardlinks Model.Validator Model.Diff Model.AbsDest Model.SenderView
+  Proofs.PatternP Proofs.HardlinksP Proofs.WitnessP Proofs.RefValidP Proofs.TrimP Proofs.SenderViewP
+  Proofs.SenderTransferP Proofs.C11WitnessP.
 Import ListNotations.
 
+(* ---- the hard-link reset, on any listing the filters can leave ---- *)
 Theorem reset_links_valid :
   forall l, wf_links l = true -> hardlink_check (hardlink_reset l) = None.
 Proof. exact reset_links_valid_proof. Qed.
-Print Assumptions reset_links_valid.
 
 (* ... and the reset computes exactly the declarative description: every plain entry
    ends up being (empty link name) or naming the FIRST KEPT member of its link group;
-   nothing else changes.  "A file whose link source was filtered out arrives as a
-   regular file and later members of its group link to it." *)
+   nothing else changes. *)
 Theorem reset_eq_spec :
   forall l, wf_links l = true -> hardlink_reset l = reset_spec l.
 Proof. exact reset_eq_spec_proof. Qed.
-Print Assumptions reset_eq_spec.
 
-(* non-vacuity: a listing whose first group member was filtered out *)
+(* In the property's words.  l = what the filters leave.  s = a link member whose link name k
+   names no entry of l (the first member of its group was filtered out), s being the first entry
+   of l with that link name.  Then s is emitted with EMPTY link name and otherwise unchanged —
+   in particular with the size the walk reported (stat.go reports the full size for every
+   member of a link group) —, the entries before it are as many as before, and every later
+   member of the group is emitted as a link naming s. *)
+Theorem reset_representative :
+  forall l, wf_links l = true ->
+  forall pre s post k,
+  l = pre ++ s :: post -> hl_plain s = true -> st_linkname s = k -> k <> [] ->
+  (forall t, In t l -> st_path t <> k) ->
+  (forall t, In t pre -> hl_plain t = true -> st_linkname t <> k) ->
+  exists pre' post',
+    hardlink_reset l = pre' ++ set_linkname s [] :: post' /\ length pre' = length pre /\
+    st_size (set_linkname s []) = st_size s /\
+    Forall2 (fun t t' => hl_plain t = true -> st_linkname t = k -> t' = set_linkname t (st_path s)) post post'.
+Proof. exact reset_representative_proof. Qed.
+
+(* ---- the reference filter of a well-formed source is a well-formed listing ----
+   for ANY verdict V on paths: strictly ascending in protocol order, every "/"-prefix of a
+   reported path is the path of a reported directory, paths clean and relative — provided the
+   map function keeps path, directory/symlink bits and link name, and never answers Exclude
+   for a directory. *)
+Theorem reference_is_wf_listing :
+  forall V mapfn view, map_keeps_shape mapfn -> map_never_drops_dirs mapfn -> wf_source view = true ->
+    wf_listing (reference V mapfn view) /\
+    (forall s, In s (reference V mapfn view) -> ok_path (st_path s) = true).
+Proof. exact (fun V mapfn view H1 H2 => reference_wf_listing V mapfn H1 H2 view). Qed.
+
+(* a sorted, ancestor-closed listing with clean relative paths passes the order validator (C12) *)
+Theorem wf_listing_passes_validator :
+  forall l, wf_listing l -> (forall s, In s l -> ok_path (st_path s) = true) ->
+    run_validator (items l) = None.
+Proof. exact listing_passes_validator. Qed.
+
+(* ---- the walk as the code runs it, for ALL pattern lists and ALL matchers ----
+   filterFS.Walk with both SkipDir shortcuts reports exactly C10's reference filter (incremental
+   verdict) of the TRIMMED view: the source without the directories at which a shortcut fires
+   ([TrimP.prune_at], a function of the path) and without everything below them.  The trimmed
+   view is again a well-formed source and its walk is a sub-sequence of the source's walk.
+   (C10's prune_unobservable says more — nothing selected is lost — but needs hypotheses on
+   the external matcher; this needs none.) *)
+Theorem filter_walk_is_reference_of_trimmed_view :
+  forall pmatch mapfn c view, wf_source view = true ->
+    filter_walk pmatch mapfn c view = reference (keep_incr pmatch c) mapfn (TrimP.trim pmatch c view)
+    /\ wf_source (TrimP.trim pmatch c view) = true
+    /\ rsub eq (walk_root (TrimP.trim pmatch c view)) (walk_root view).
+Proof.
+  exact (fun pmatch mapfn c view H =>
+           conj (TrimP.filter_walk_trim_reference pmatch mapfn c view H)
+                (conj (TrimP.trim_wf_source pmatch c view H) (TrimP.trim_walk_root pmatch c view))).
+Qed.
+
+(* ---- what the sender announces is a valid stream for the receiver ----
+   for EVERY pattern configuration and EVERY single-pattern matcher (no hypothesis on the
+   external library: both SkipDir shortcuts are covered by the trimmed-view theorem below), every
+   map function as above and every well-formed source: the order validator and the hard-link
+   validator accept the whole STAT sequence. *)
+Theorem filtered_stream_valid :
+  forall pmatch mapfn c view,
+    map_keeps_shape mapfn -> map_never_drops_dirs mapfn ->
+    wf_source view = true -> source_links_ok view = true ->
+    run_validator (items (sender_view pmatch mapfn c view)) = None /\
+    hardlink_check (sender_view pmatch mapfn c view) = None.
+Proof. exact (fun pmatch mapfn c view H1 H2 => filtered_stream_valid_proof pmatch mapfn c H1 H2 view). Qed.
+
+(* The statement without [map_never_drops_dirs] is FALSE: a MapFunc answering MapResultExclude
+   for the directory d while keeping d/c makes filterFS.Walk report d/c without d, and the
+   receiver's validator rejects the first STAT.  (This is what filter.go documents for
+   MapResultExclude — "exclude the current path and continue" —; replayed on the real code:
+   corpus/C11/witnesses.case.) *)
+Theorem filtered_stream_valid_needs_map_hypothesis_refuted :
+  exists pmatch mapfn c view,
+    map_keeps_shape mapfn /\
+    wf_source view = true /\ source_links_ok view = true /\
+    run_validator (items (sender_view pmatch mapfn c view)) = Some 0%nat.
+Proof. exact map_drop_refuted_proof. Qed.
+
+(* ---- walk and Open agree ----
+   a non-directory of the source is reported by the filtered walk iff filterFS.Open admits its
+   path: under C10's no-late-shadow condition on every path of the view, for a map function
+   that never drops anything (Open has no stat to hand to a MapFunc: paths a MapFunc hides are
+   NOT hidden from Open — not claimed). *)
+Theorem walk_open_agree :
+  forall pmatch mapfn c view,
+    prefix_semantics pmatch -> cfg_star_safe c = true -> map_keeps_shape mapfn ->
+    (forall p s, fst (mapfn p s) = MKeep) ->
+    wf_source view = true -> all_paths (nls_path pmatch c) view = true ->
+    forall q, source_file view q = true ->
+      reported pmatch mapfn c view q = filter_open pmatch c q.
+Proof. exact (fun pmatch mapfn c view Hs Hc Hm Hk => walk_open_agree_proof pmatch mapfn c Hm Hs Hc view Hk). Qed.
+
+(* every reported non-directory can be opened — whatever the map function drops, whatever the
+   single-pattern matcher *)
+Theorem reported_file_can_be_opened :
+  forall pmatch mapfn c view,
+    map_keeps_shape mapfn ->
+    wf_source view = true -> all_paths (nls_path pmatch c) view = true ->
+    forall s, In s (filter_walk pmatch mapfn c view) -> st_is_dir s = false ->
+      filter_open pmatch c (st_path s) = true.
+Proof. exact (fun pmatch mapfn c view H1 => reported_file_opens pmatch mapfn c H1 view). Qed.
+
+(* Without no-late-shadow the statement is FALSE (known finding K1, late-shadow, of
+   moby/patternmatcher seen through filter.go): include [d, !d/c, d], tree d/{c,e}: the walk
+   hides d/c, Open serves it. *)
+Theorem walk_open_agree_refuted :
+  exists pmatch mapfn c view q,
+    prefix_semantics pmatch /\ cfg_star_safe c = true /\ map_keeps_shape mapfn /\
+    (forall p s, fst (mapfn p s) = MKeep) /\ wf_source view = true /\ source_file view q = true /\
+    reported pmatch mapfn c view q <> filter_open pmatch c q.
+Proof. exact walk_open_agree_refuted_proof. Qed.
+
+(* ---- the transfer produces exactly the filtered view ----
+   composition with the receiver theorem (C02/C05 receive_fresh): for every prior destination
+   listing A (sorted, ancestor-closed) the transfer of what the sender announces and delivers
+   does not fail, and at every path the destination shows the entry of the filtered view
+   (same identity key; for regular files and hard links the SOURCE's bytes) and nothing where
+   the filtered view has nothing.  [groups_coherent]: members of one link group of the source
+   carry the same bytes and mode (they are one inode).  [identity_faithful]: as in C02. *)
+Theorem filtered_transfer_converges :
+  forall pmatch mapfn c view (H : bytes -> bytes) (hdr : stat -> bytes) d (A : list AbsDest.entry),
+    map_keeps_shape mapfn -> map_never_drops_dirs mapfn -> map_keeps_special mapfn ->
+    wf_source view = true -> source_links_ok view = true -> groups_coherent view ->
+    all_paths (nls_path pmatch c) view = true ->
+    wf_listing (map fst A) -> identity_faithful d A (filtered_entries pmatch mapfn c view) ->
+    let r := receive_abs H hdr Fresh d A (sender_entries pmatch mapfn c view) in
+    ds_err r = false /\
+    forall p, view_equiv (alookup p (ds_map r)) (efind p (filtered_entries pmatch mapfn c view)).
+Proof.
+  exact (fun pmatch mapfn c view H hdr d A H1 H2 H3 Hw Hl Hg Hn =>
+           filtered_transfer_converges_proof pmatch mapfn c H1 H2 H3 view Hw Hl Hg Hn H hdr d A).
+Qed.
+
+(* Without no-late-shadow the statement is FALSE, and harmfully so: EXCLUDE patterns
+   [d, !d/c, d], tree d/{c,e}: the walk announces d/c, Open refuses it, send.go drops the error
+   and the file arrives EMPTY (all other hypotheses hold; empty prior destination).  Replayed
+   on the real Send/Receive: corpus/C11/late-shadow.witness. *)
+Theorem filtered_transfer_late_shadow_refuted :
+  exists pmatch mapfn c view (H : bytes -> bytes) (hdr : stat -> bytes) q,
+    map_keeps_shape mapfn /\ map_never_drops_dirs mapfn /\ map_keeps_special mapfn /\
+    wf_source view = true /\ source_links_ok view = true /\ groups_coherent view /\
+    let r := receive_abs H hdr Fresh DMetadata [] (sender_entries pmatch mapfn c view) in
+    ds_err r = false /\
+    ~ view_equiv (alookup q (ds_map r)) (efind q (filtered_entries pmatch mapfn c view)).
+Proof. exact transfer_late_shadow_refuted_proof. Qed.
+
+Print Assumptions reset_links_valid.
+Print Assumptions reset_eq_spec.
+Print Assumptions reset_representative.
+Print Assumptions reference_is_wf_listing.
+Print Assumptions wf_listing_passes_validator.
+Print Assumptions filter_walk_is_reference_of_trimmed_view.
+Print Assumptions filtered_stream_valid.
+Print Assumptions filtered_stream_valid_needs_map_hypothesis_refuted.
+Print Assumptions walk_open_agree.
+Print Assumptions reported_file_can_be_opened.
+Print Assumptions walk_open_agree_refuted.
+Print Assumptions filtered_transfer_converges.
+Print Assumptions filtered_transfer_late_shadow_refuted.
+
+(* ---- non-vacuity ---- *)
+(* a listing whose first group member was filtered out *)
 Definition mkst (p : list N) (mode : N) (ln : list N) : stat :=
   {| st_path := p; st_mode := mode; st_uid := 0; st_gid := 0; st_size := 3; st_mtime := 7;
      st_linkname := ln; st_devmajor := 0; st_devminor := 0; st_xattrs := [] |}.
@@ -35,4 +211,35 @@ Example ex_listing_wf : wf_links ex_listing = true. Proof. vm_compute. reflexivi
 Example ex_listing_reset :
   map st_linkname (hardlink_reset ex_listing) = [[]; []; [100;47;98]; []; [101]]
   /\ hardlink_check ex_listing = Some 1%nat.   (* without the reset the stream is rejected *)
+Proof. vm_compute. split; reflexivity. Qed.
+
+From Coq Require Import String.
+Open Scope string_scope.
+(* a source with a link group spread over excluded and included paths (C11WitnessP.hl_view):
+     a, b -> a, d/{c -> a, e}, f, g -> f      exclude [a]
+   the hypotheses of all theorems hold; b becomes the file, d/c names b, g still names f *)
+Example ex_hypotheses :
+  wf_source hl_view = true /\ source_links_ok hl_view = true /\ groups_coherent_b hl_view = true /\
+  cfg_star_safe hl_cfg = true /\ all_paths (nls_path pm_lit hl_cfg) hl_view = true.
+Proof. vm_compute. repeat split; reflexivity. Qed.
+Example ex_sender_view :
+  map (fun s => (st_path s, st_linkname s)) (sender_view pm_lit id_map hl_cfg hl_view) =
+  [ (bs "b", []); (bs "d", []); (bs "d/c", bs "b"); (bs "d/e", []); (bs "f", []); (bs "g", bs "f") ]
+  /\ run_validator (items (sender_view pm_lit id_map hl_cfg hl_view)) = None
+  /\ hardlink_check (sender_view pm_lit id_map hl_cfg hl_view) = None
+  /\ hardlink_check (filter_walk pm_lit id_map hl_cfg hl_view) = Some 0%nat.   (* without the reset: rejected *)
+Proof. vm_compute. repeat split; reflexivity. Qed.
+(* walk and Open on the files of that source *)
+Example ex_walk_open :
+  map (fun q => (reported pm_lit id_map hl_cfg hl_view (bs q), filter_open pm_lit hl_cfg (bs q)))
+      ["a"; "b"; "d/c"; "d/e"; "f"; "g"] =
+  [ (false, false); (true, true); (true, true); (true, true); (true, true); (true, true) ].
+Proof. vm_compute. reflexivity. Qed.
+(* the transfer into an empty destination: b arrives with the bytes of the group, d/c as a link *)
+Example ex_transfer :
+  let r := receive_abs Hid hid Fresh DMetadata [] (sender_entries pm_lit id_map hl_cfg hl_view) in
+  ds_err r = false /\
+  map (fun q => option_map (fun e => (st_linkname (de_stat e), de_bytes e)) (alookup (bs q) (ds_map r)))
+      ["a"; "b"; "d/c"; "g"] =
+  [ None; Some ([], [120%N]); Some (bs "b", [120%N]); Some (bs "f", [121%N]) ].
 Proof. vm_compute. split; reflexivity. Qed.
